@@ -1496,7 +1496,7 @@ func (c *Ctx) classifyLoop(fn *ssa.Function, h *ssa.BasicBlock, body map[*ssa.Ba
 	cutP3 := func(b *ssa.BasicBlock) bool {
 		for _, ins := range b.Instrs {
 			if call, ok := ins.(ssa.CallInstruction); ok {
-				if sc := call.Common().StaticCallee(); sc != nil && consumingCalls[calleeName(sc)] {
+				if sc := call.Common().StaticCallee(); sc != nil && (consumingCalls[calleeName(sc)] || c.consumingFn(sc)) {
 					return true
 				}
 				if call.Common().IsInvoke() && call.Common().Method.Name() == "Read" {
